@@ -60,6 +60,9 @@ REQUIRED = {
         'edge_out.bottom_out': 100,
         'edge_out.left_out': 100,
         'edge_out.right_out': 100,
+        'steered.on_telepod': 100,
+        'compositions.dense': 10,
+        'steered.door_front': 100,
     }
 }
 
@@ -334,7 +337,9 @@ def rejected_actions(ctx, env, state, label, payload_fn):
 
 def sweep_composition(ctx, comp_seed, n_states, debug):
     rng = gen.rng_for('C01comp', comp_seed)
-    comp = workloads.Composition(rng)
+    comp = workloads.Composition(rng, dense=(comp_seed % 3 == 0))
+    if comp_seed % 3 == 0:
+        ctx.hit('compositions.dense')
     holder = {}
     env = comp.build(lambda rng=None: holder['s'])
     env.set_seed(comp_seed)
@@ -348,6 +353,9 @@ def sweep_composition(ctx, comp_seed, n_states, debug):
         state, cat = comp.member_state(srng, category=cats[k % len(cats)])
         if state is None:
             continue
+        if k % 2 == 1 or comp_seed % 3 == 0:  # steer every other state (every state of a dense composition) towards interacting components (telepod + door in front, key in hand ...)
+            for sc in workloads.steer(comp, srng, state):
+                ctx.hit('steered.' + sc)
         holder['s'] = state
         label = f'composition {comp.id} state#{k}'
         js = None
@@ -471,7 +479,7 @@ def anchored():
 
 
 def run(ctx):
-    n_comp = ctx.pick(48, 4000)
+    n_comp = ctx.pick(96, 4000)
     n_states = ctx.pick(64, 120)
     with reach(ctx, anchored()):
         for c in range(n_comp):
@@ -500,7 +508,7 @@ def run(ctx):
 def replay(ctx, kind, payload):
     if kind in ('step', 'predicate', 'rejected') and 'comp_seed' in payload:
         rng = gen.rng_for('C01comp', payload['comp_seed'])
-        comp = workloads.Composition(rng)
+        comp = workloads.Composition(rng, dense=(payload['comp_seed'] % 3 == 0))
         state = enc.state_from_json(payload['state'])
         env = comp.build(lambda rng=None: state)
         env.set_seed(payload['comp_seed'])
